@@ -117,7 +117,7 @@ func TestP1RoundTrip(t *testing.T) {
 	defer rec.Finish(t)
 	rec.Rule("*type1.Font values: 1-13 glyphs incl. .notdef; names over regular characters (StandardEncoding names, random names incl. bytes >= 0x80, operator-like names); integer advance widths incl. int32 extremes, optional WidthY; 0-3 closed contours of lines/curves (h/v/general shapes) with integer coordinates (incl. charstring-format boundaries) or fractional ones (k/q, 2-3 decimals); even-length stem lists over int16 incl. extremes; encoding absent / standard / standard with unassigned codes / explicit incl. names of absent glyphs; FontInfo strings over all 256 bytes; finite floats incl. 1e21, 5e-324, MaxFloat64; font matrix variants; private values at and away from defaults; creation time zero or any second of years 1-9999 with sub-second part, in UTC, named or unnamed fixed zones incl. non-hour offsets. x 4 formats. Oracle: Read(Write(F)) deep-equals F after the property's own normalisation (encoding entries naming absent glyphs -> .notdef, time to the second; coordinates exact when all of a glyph's coordinates are integers, else 0.005). Non-trivial: >= 2 glyphs and >= 1 of {curve, fractional coordinate, stem, escaped string byte, non-standard encoding, non-default private value, non-UTC zone}; distinct by font content and format.")
 	opts := findings(rec)
-	ev.SetupRapid(2400, 100000)
+	ev.SetupRapid(15000, 500000)
 	rapid.Check(t, func(t *rapid.T) {
 		f, feat := t1gen.GenFont(t, opts)
 		nt := false
